@@ -17,7 +17,7 @@ RULE = ("Hypothesis-generated configurations (every output incl. failing sinks /
         "continuation-line options; syntactically broken files: stray lines, unterminated section header, over-long line) x exec inputs x runs of 3..8 (thorough: up to 200) identical calls after two warm-up calls, "
         "in plain -O2 builds with and without thread safety. Observed before the call / at real-exec entry / after return: fd "
         "table (numbers, targets, flags), live heap (mallinfo2, tcache off), environ pointer+content hash, cwd, umask, signal "
-        "mask, all sigactions, RLIMIT_NOFILE. Oracle: all equal at the three points, heap growth exactly 0 at exec entry and "
+        "mask, all sigactions, RLIMIT_NOFILE, bytes pending in the caller's stdout buffer. Oracle: all equal at the three points, heap growth exactly 0 at exec entry and "
         "across calls; plus (strace injection) every I/O call of one wrapped call failing in every call from the 3rd on: fd table steady, "
         "no monotone heap growth. non-trivial = config exercising an error path, a duplicate/continuation option, or an output that opens "
         "a descriptor; distinct by (output kind, option multiset shape, call shape)")
@@ -65,7 +65,9 @@ def strategy():
         envp = draw(gen.st_envp(big=False))
         n = draw(st.sampled_from([3, 3, 4, 8]))
         stdio = draw(st.sampled_from(["pipe", "pipe", "null", "closed"]))
-        return {"cfg": cfg, "feats": feats, "kind": kind, "argv": argv, "envp": envp, "n": n, "stdio": stdio, "long": False}
+        # unflushed data in the caller's own stdout buffer is part of its state (only the stdout output may push it out)
+        pending = stdio != "closed" and cfg["kind"] != "stdout" and draw(st.sampled_from([False, True]))
+        return {"cfg": cfg, "feats": feats, "kind": kind, "argv": argv, "envp": envp, "n": n, "stdio": stdio, "long": False, "pending": pending}
     return case()
 
 
@@ -84,6 +86,8 @@ def evaluate(env, c):
             ops.append(drv.op("S", fd, c["stdio"]))
         ops += [drv.op("K", "devlog", out + "/devlog.sock", 1), drv.op("K", "sock", out + "/sock")]
         ops += gen.cfg_ops(c["cfg"], out)
+        if c.get("pending") and b"stdout" not in (c["cfg"]["ini"] or b""):
+            ops.append(drv.op("w", b"bytes the caller has not flushed yet"))
         ops.append(drv.op("P"))         # baseline before the library has ever run in this process
         for i in range(WARMUP + n):
             ops.append(drv.op_exec(c["kind"], b"/bin/prog", c["argv"], c["envp"], ret=-1, err=2, snap=True))
@@ -145,7 +149,7 @@ def classify(c):
     opens_fd = k in ("file", "filetpl", "socket", "devlog", "default", "devnull", "devtty", "file-devfull")
     nontriv = errpath or opens_fd or bool(c["feats"])
     key = (k, tuple(sorted(set(c["feats"]))), gen.vec_class(c["argv"]), c["kind"]) if nontriv else None
-    cls = ["out:" + k, "stdio:" + c["stdio"], "n:%d" % (200 if c.get("long") else c["n"])] + sorted(set(c["feats"]))
+    cls = ["out:" + k, "stdio:" + c["stdio"], "n:%d" % (200 if c.get("long") else c["n"])] + sorted(set(c["feats"])) + (["caller-has-unflushed-stdout-data"] if c.get("pending") else [])
     if errpath:
         cls.append("error-path")
     return key, cls
